@@ -769,6 +769,10 @@ GROWTH = [
     ("iterator-recursion", "local function f() for _ in function() return f() end do end end return (pcall(f))"),
     ("legit-depth-150000", "local function ok(n) if n == 0 then return 0 end return 1 + ok(n - 1) end return ok(150000)"),
     ("legit-tail-1e6", "local function t(n) if n == 0 then return 'done' end return t(n - 1) end return t(1000000)"),
+    # a long-lived frame that keeps receiving multiple results is not deep (regression of the depth limit: received
+    # vararg values were counted and never uncounted, so this ended in a spurious 'stack overflow')
+    ("legit-loop-collecting-results", "local function id(...) return ... end local n = 0 for i = 1, 2200000 do local t = {id(i, i)} n = n + #t end return n"),
+    ("legit-loop-vararg-calls", "local function f() return 1, 2, 3 end local function g(...) return select('#', ...) end local n = 0 for i = 1, 1000000 do n = n + g(f()) end return n"),
 ]
 
 # ----------------------------------------------------------------------------- exploration: coroutine life-cycle abuse
@@ -1512,7 +1516,8 @@ def explore(ck, lr, tier):
 
     # ---- (e) unbounded growth of the call depth: NO limits at all (only the process ulimit and the watchdog); reference Lua ends each
     #      of these with an ordinary "stack overflow" error, and so must golua (a fatal out-of-memory is not recoverable by pcall)
-    GQ = ("nontail", "through-metamethod", "wrap-recursion", "resume-recursion", "vararg-nontail", "legit-depth-150000")
+    GQ = ("nontail", "through-metamethod", "wrap-recursion", "resume-recursion", "vararg-nontail", "legit-depth-150000",
+          "legit-loop-collecting-results", "legit-loop-vararg-calls")
     GROWTH_ = [g for g in GROWTH if not quick or g[0] in GQ]
     gl_ = ["g%d %s" % (i, lua_hex(src)) for i, (label, src) in enumerate(GROWTH_)]
     ck.log("call-depth growth family: %d programs" % len(gl_))
@@ -1531,6 +1536,12 @@ def explore(ck, lr, tier):
                              (label, res["status"], res.get("msg", "")[:120].replace("\n", " | ")),
                              {"kind": "Go!=S", "engine": "lua", "family": "growth", "label": label, "status": res["status"],
                               "message": res.get("msg", "")[:1500], "source": src, "opts": ""})
+        elif label.startswith("legit-") and res["status"] != "ok":
+            bad_total += 1
+            ck.violation("a program that is not deeply nested is refused by the call-depth limit: %s -> %s %s" %
+                         (label, res["status"], res.get("msg", "")[:120].replace("\n", " | ")),
+                         {"kind": "Go!=S", "engine": "lua", "family": "growth", "label": label, "status": res["status"],
+                          "message": res.get("msg", "")[:1500], "source": src, "opts": ""})
     panic_inventory(ck)
     ck.cov["bad_outcomes"] = bad_total
 
